@@ -143,6 +143,7 @@ structure CW where
   exclCT : List Bytes
   buffer : Bytes := []
   committed : Option Hdrs := none
+  trailers : Hdrs := []        -- trailer values taken aside by restoreHeader (`[]` values = deleted after the commit)
   headersSent : Bool := false
   status : Nat := 0
   decided : Bool := false
@@ -167,11 +168,21 @@ def CW.initCompression (w : CW) : CW :=
   let w := if !w.headersSent then { w with base := w.base.writeHeader w.status, headersSent := true } else w
   { w with hasWriter := true }
 
-/-- restoreHeader: the live map goes back to what the handler committed (trailers are not modelled) -/
+/-- restoreHeader: the live map goes back to what the handler committed; trailer values set (or
+    deleted) since then are taken aside -/
 def CW.restoreHeader (w : CW) : CW :=
   match w.committed with
   | none => w
-  | some h => { w with base := { w.base with live := h }, committed := none }
+  | some h =>
+    let live := w.base.live
+    let late := live.filter (fun kv => isTrailerKey h kv.1) ++
+      (h.filter (fun kv => isTrailerKey h kv.1 && !hhas live kv.1)).map (fun kv => (kv.1, []))
+    { w with base := { w.base with live := h }, committed := none, trailers := late }
+
+/-- restoreTrailers: after the header block -/
+def CW.restoreTrailers (w : CW) : CW :=
+  { w with base := { w.base with live := w.trailers.foldl (fun l kv => hset l kv.1 kv.2) w.base.live },
+           trailers := [] }
 
 /-- `const sniffLen = 512` -/
 @[reducible] def sniffLen : Nat := 512
@@ -184,6 +195,7 @@ def CW.start (sn : Sniff) (w : CW) (pending : Bytes) (compress : Bool) : CW × E
   if !compress then
     let w := if w.status != 0 && !w.headersSent then
         { w with base := w.base.writeHeader w.status, headersSent := true } else w
+    let w := w.restoreTrailers
     if !pending.isEmpty then
       let r := w.base.write sn pending
       ({ w with base := r.1 }, r.2.err)
@@ -191,7 +203,7 @@ def CW.start (sn : Sniff) (w : CW) (pending : Bytes) (compress : Bool) : CW × E
   else
     let live := w.base.live
     let live := if !hhas live kCT && !pending.isEmpty then hset live kCT [sn (pending.take sniffLen)] else live
-    let w := ({ w with base := { w.base with live := live } }).initCompression
+    let w := (({ w with base := { w.base with live := live } }).initCompression).restoreTrailers
     if !pending.isEmpty then ({ w with evs := w.evs ++ [some pending] }, .ok) else (w, .ok)
 
 def CW.writeHeader (w : CW) (c : Nat) : CW :=
@@ -254,6 +266,15 @@ def CW.step (sn : Sniff) (w : CW) (o : Op) : CW × Option WOut :=
 def finalCW (sn : Sniff) (cfg : Cfg) (enc : Bytes) (h0 : Hdrs) (ops : List Op) : CW × List WOut :=
   let r := runOps (CW.step sn) ({ base := { live := h0 }, thr := cfg.minSize, enc := enc, exclCT := cfg.exclCT } : CW) ops
   (if r.1.restored then r.1 else r.1.close sn, r.2)
+
+/-- the trailers of the exchange with the middleware; `wireBig`: the encoder produced more than 2048
+    bytes (a property of the codec, shipped by the harness) -/
+def withTrailers (sn : Sniff) (cfg : Cfg) (path ae : Bytes) (h0 : Hdrs) (ops : List Op) (wireBig : Bool) : Hdrs :=
+  let enc := active cfg path ae h0
+  if enc.isEmpty then (runOps (plainStep sn) { live := h0 } ops).1.trailersAtFinish sn false
+  else
+    let w := (finalCW sn cfg enc h0 ops).1
+    w.base.trailersAtFinish sn (w.compress && w.hasWriter && wireBig)
 
 def runWith (sn : Sniff) (cfg : Cfg) (path ae : Bytes) (h0 : Hdrs) (ops : List Op) : WithResp :=
   let enc := active cfg path ae h0
